@@ -169,6 +169,14 @@ func (f *fetcher) fetchUpstream(req *http.Request, key cache.CacheKey, clientHd 
 
 	noRetryOn416 := !f.cfg.Proxy.RetryOnRange416.Read()
 	cached, err := f.handleUpstreamResponse(req, resp, key, clientHd, noRetryOn416)
+	if errors.Is(err, ErrCacheResponseFailed) {
+		// The origin answered; only keeping its answer failed (cache full, empty body, failed write).
+		// That must not fail the request: treat the answer as one that cannot be cached, so that every
+		// waiting client fetches it for itself (the body of this response may already be partly consumed).
+		resp.Body.Close()
+		slog.Warn("Could not cache upstream response, bypassing the cache", "url", req.URL, "error", err)
+		return fetchResult{}, ErrNotCacheable
+	}
 	if err != nil {
 		resp.Body.Close()
 		slog.Error("Error handling upstream response after cache miss", "url", req.URL, "error", err)
@@ -312,7 +320,11 @@ func (f *fetcher) dedupFetch(req *http.Request, key cache.CacheKey, clientHd *he
 		slog.Debug("Request can't be coalesced, fetching upstream...")
 		metrics.Global.Requests.NonCoalescedRequests.Increment()
 
-		return f.fetchUpstream(req, key, clientHd)
+		fetched, err := f.fetchUpstream(req, key, clientHd)
+		if errors.Is(err, ErrNotCacheable) {
+			return f.fetchDirectlyFromUpstream(req)
+		}
+		return fetched, err
 	}
 
 	originalClientHd := *clientHd // Copy the original client headers so the shared requests don't get a modified version
